@@ -337,6 +337,7 @@ func (g *sessGen) step() {
 		}
 		k := llKinds[g.r.Intn(len(llKinds))]
 		g.curFun = g.qual(n)
+		delete(g.funs, g.qual(n)) // a function never calls itself (no unbounded recursion in probes)
 		g.hist("op:defun")
 		f := "(defun " + n + " " + k.text
 		if g.r.Chance(35) {
@@ -349,7 +350,6 @@ func (g *sessGen) step() {
 		for i := 0; i < nb; i++ {
 			f += " " + g.expr(k.vars, 3)
 		}
-		delete(g.funs, g.qual(n)) // a function never calls itself
 		g.add(f + ")")
 		g.funs[g.qual(n)] = k.text
 		if g.curPkg != "" {
